@@ -782,6 +782,10 @@ def _lzma_probe_peak(data: bytes) -> int:
         tracemalloc.stop()
 
 
+CPU_BASE_S = 8.0
+CPU_PER_BYTE_S = 6e-6
+
+
 def _run_charged(runner, sname):
     """runner() — with a per-case budget overrun that surfaces while an exception of the call is being unwound (signal handlers
     only run once a Python-level handler is reached, i.e. in this frame) still charged to the library call."""
@@ -871,6 +875,13 @@ def check(spec) -> Outcome:
         runner = lambda: drive(kind, mutated, spec)  # noqa: E731
     limit = BASE_MEM + 8 * (inp_len + 3 * REQ + max(unit, declared_unit(kind, mutated if runner_is_input else b"")))
     stage = "open"
+    # CPU budget: a flat part plus a part proportional to the input.  Parsing is allowed to be linear in the bytes it is given (a
+    # 5 MiB input whose table count field claims 4 MiB of 32-byte entries costs cstruct about 2 us per byte under tracemalloc);
+    # the per-case timer of the worker (flat 10 s) is re-armed to this budget so that "slow but linear" is not reported as a hang.
+    cpu_limit = CPU_BASE_S + CPU_PER_BYTE_S * (inp_len + 3 * REQ)
+    import signal as _signal
+
+    _signal.setitimer(_signal.ITIMER_PROF, cpu_limit + 2.0, cpu_limit + 2.0)
     tracemalloc.start()
     t0 = time.process_time()
     err = None
@@ -909,8 +920,8 @@ def check(spec) -> Outcome:
             where += "|stdlib-lzma-probe"
         out.fail(f"memory|{where}", f"peak {peak} bytes traced (limit {limit}) for a {inp_len}-byte input, request {REQ}; "
                                     f"{type(err).__name__ if err else 'no exception'}; spec field={spec.get('field')}")
-    if cpu > 8.0:
-        out.fail(f"cpu|{where}", f"{cpu:.1f}s CPU for a {inp_len}-byte input")
+    if cpu > cpu_limit:
+        out.fail(f"cpu|{where}", f"{cpu:.1f}s CPU for a {inp_len}-byte input (budget {cpu_limit:.1f}s)")
     out.nontrivial = changed and stage != "open"
     out.cls("past-header" if stage != "open" else "refused-at-open", "raised" if err else "returned")
     return out
@@ -987,6 +998,11 @@ def extra_campaign(tier, seed, workdir, max_par):
                     per = json.load(open(rout))["per_file"][rp]
                     if per:
                         sig, msg = per[0]["sig"], per[0]["message"] + " (input found by the coverage-guided campaign)"
+                    elif kindname in ("timeout", "slow"):
+                        # libFuzzer's -timeout is wall-clock time; the regular oracle (CPU time, budget proportional to the input)
+                        # re-ran the input and it stayed within budget: inconclusive, not a violation
+                        stats["fuzz_unconfirmed_timeouts"] = stats.get("fuzz_unconfirmed_timeouts", 0) + 1
+                        continue
                 except (OSError, KeyError, ValueError):
                     pass
                 results[sig] = {"count": len(arts), "size": len(raw), "message": msg, "spec": fspec}
